@@ -16,8 +16,19 @@ type Clock struct {
 
 	TimersCreated int
 	NowCalls      int
+	Timers        []*TimerRec // every timer created through NewTimer
 	// OnTimer observes timer creation (duration, creating goroutine id).
 	OnTimer func(d time.Duration, g int)
+}
+
+// TimerRec observes one timer.
+type TimerRec struct {
+	G        int           // creating goroutine
+	Created  time.Duration // simulated time at creation
+	D        time.Duration // requested duration
+	Deadline time.Duration
+	Fired    bool
+	FireT    time.Duration // simulated time at which it fired (value sent = Base+FireT+Skew)
 }
 
 var _ clock.Clock = (*Clock)(nil)
@@ -46,7 +57,10 @@ func (c *Clock) NewTimer(d time.Duration) (clock.Timer, <-chan time.Time) {
 		c.OnTimer(d, c.S.Cur().ID)
 	}
 	ch := make(chan time.Time, 1)
+	rec := &TimerRec{G: c.S.Cur().ID, Created: c.S.Now(), D: d, Deadline: c.S.Now() + d}
+	c.Timers = append(c.Timers, rec)
 	t := c.S.AfterFunc(d, 0, func(now time.Duration) {
+		rec.Fired, rec.FireT = true, now
 		select {
 		case ch <- c.Base.Add(now + c.Skew):
 		default:
